@@ -49,9 +49,10 @@ def abs_from_text(state):
     return interp.read_state_text(state.serialize())
 
 
-def abs_state(state, site, prop):
+def abs_state(state, site, prop, caller_made_duplicates=False):
     """abstract value of a library State by both observation routes (serialized text / structure); they must agree
-    and the text must not list a ground atom twice (a state is a set of facts)"""
+    and the text must not list a ground atom twice (a state is a set of facts) - unless the caller itself united the
+    fact objects of two states into this one (objects of one fact with different type annotations are then both kept)"""
     txt = state.serialize()
     try:
         a_txt = interp.read_state_text(txt)
@@ -64,7 +65,7 @@ def abs_state(state, site, prop):
     if not interp.state_eq(a_txt, a_obj):
         raise Violation(f"{prop}/state-text-differs-from-content", site, interp.state_diff(a_txt, a_obj))
     dup = interp.dup_facts_in_state_text(txt)
-    if dup:
+    if dup and not caller_made_duplicates:
         raise Violation(f"{prop}/state-lists-fact-twice", site, f"{dup[:3]}")
     return a_txt
 
@@ -94,6 +95,7 @@ def draw_features(ctx, base=None, allow=("subtypes", "constants", "neg", "equali
     feat["forall_pre"] = c.draw(4) == 0
     feat["bare_pre"] = c.draw(3) == 0
     feat["nested_cond"] = c.draw(3) == 0  # or / forall inside the conditions of when effects
+    feat["join_names"] = c.draw(6) == 0  # object names whose joins collide (x, x_x, x-x, ...)
     feat["max_objects"] = 3 + c.draw(3) if c.draw(8) else 6 + c.draw(3)
     feat["max_actions"] = 1 + c.draw(3) if c.draw(8) else 4 + c.draw(2)
     feat["long_names"] = c.draw(12) == 0
@@ -252,3 +254,29 @@ def concurrent(ctx, thunks, p_den=60, forced_max=4):
         if r and r[0] == "violation":
             raise r[1]
     return results, S.switches
+
+
+def interrupted(ctx, fn):
+    """runs fn() on one scheduler thread and raises a cancellation (SimCancel) at a tape-chosen traced line inside the
+    repository's package - the fault 'the caller's first use of an object was interrupted' (Ctrl-C, timeout, task
+    cancellation).  -> True when the cancellation fired inside fn (fn's own exceptions are swallowed)."""
+    import os
+    from sim import sched as schedmod
+    sc = ctx.s("sched")
+    pkg = os.path.join(os.environ.get("VERIF_REPO", "/repo"), "pddl_plus_parser")
+    k = 1 + sc.draw(1 << sc.draw(11))
+    S = schedmod.Sched(sc, pkg, p_num=0, cancel_at=(k,))
+
+    def body():
+        try:
+            fn()
+        except schedmod.SimCancel:
+            pass
+        except Exception:
+            pass
+
+    S.spawn("client0", body)
+    S.run()
+    ctx.faults["cancellations"] += S.cancels
+    ctx.measure("cancellation points (traced line of the interrupted call)", (k, S.cancels))
+    return S.cancels > 0
